@@ -28,10 +28,11 @@ import c18_corpus
 PY = '/venv/bin/python'
 WORKER = os.path.join(os.path.dirname(os.path.abspath(__file__)), 'c18_worker.py')
 DOCS = sorted(c18_corpus.DOCS)
-KINDS = ['validate', 'context', 'convert']
+KINDS = ['validate', 'context', 'convert', 'loops', 'loopcopy']
 FIELDS = ['verdict', 'errors', 'xml', 'html', 'ack', 'out']
 PAR = 16
-ABBR = {'validate': 'V', 'context': 'C', 'convert': 'X'}
+ABBR = {'validate': 'V', 'context': 'C', 'convert': 'X', 'loops': 'L', 'loopcopy': 'K'}
+NOTERM = 'no_termination'
 
 
 def progress(msg):
@@ -123,12 +124,10 @@ def session_run(chk, label, **kw):
     return hs
 
 
-def stratified(hs, rnd):
-    """seeded order in which every document sequence comes up before any comes up a second time (if a stage has to stop
-    at its deadline, what was executed still covers every ordered pair of documents)"""
+def _round_robin(hs, rnd, col):
     groups = {}
     for h in sorted(hs):
-        groups.setdefault(tuple(c[0] for c in h), []).append(h)
+        groups.setdefault(tuple(c[col] for c in h), []).append(h)
     keys = sorted(groups)
     rnd.shuffle(keys)
     for k in keys:
@@ -140,18 +139,36 @@ def stratified(hs, rnd):
     return out
 
 
+def stratified(hs, rnd):
+    """seeded order in which every document sequence comes up before any comes up a second time, interleaved with an order
+    in which every sequence of call kinds comes up before any comes up a second time (if a stage has to stop at its
+    deadline, what was executed still covers every ordered pair of documents and every ordered pair of call kinds)"""
+    a, b = _round_robin(hs, rnd, 0), _round_robin(hs, rnd, 1)
+    out, seen = [], set()
+    for x, y in zip(a, b):
+        for h in (x, y):
+            if h not in seen:
+                seen.add(h)
+                out.append(h)
+    return out
+
+
 def enumerate_histories(chk, tier):
     """exhaustive part (BFS over all histories up to the bound) + seeded samples of longer ones (Sampled of SessionDef)"""
     salt = (vlib.seed() * 104729 + 18) % 1000003
     if tier == 'quick':
         full = session_run(chk, 'Session all histories <= 2', maxlen=2, prune=False)
-        samples = session_run(chk, 'Session sampled histories of length 3', maxlen=3, prune=False, mod=120, salt=salt, emitmin=3)
+        samples = session_run(chk, 'Session sampled histories of length 3', maxlen=3, prune=False, mod=170, salt=salt, emitmin=3)
     else:
         full = session_run(chk, 'Session all kept histories <= 3', maxlen=3, prune=True)
         samples = session_run(chk, 'Session sampled histories of length 3', maxlen=3, prune=False, mod=50, salt=salt, emitmin=3)
         samples |= session_run(chk, 'Session sampled histories of length 4', maxlen=4, prune=False, mod=2000, salt=salt, emitmin=4)
     if set(d for h in full for d, k, r in h) != set(DOCS):
         raise vlib.MachineryError('corpus of Session.tla and lib/c18_corpus.py differ')
+    if set(d for h in full for d, k, r in h if k in ('loops', 'loopcopy')) != set(c18_corpus.LOOPIDS):
+        raise vlib.MachineryError('LoopDocs of SessionDef.tla and LOOPIDS of lib/c18_corpus.py differ')
+    if set(k for h in full for d, k, r in h) != set(KINDS):
+        raise vlib.MachineryError('call kinds of SessionDef.tla and lib/c18.py differ')
     # stages: (name, histories, seconds after start when no further process of the stage is started, exhaustive?)
     rnd = random.Random(vlib.seed() + 18)
     pairs = sorted(h for h in full if len(h) == 2)
@@ -159,7 +176,7 @@ def enumerate_histories(chk, tier):
     extra = sorted(samples - full)
     pairs, triples, extra = stratified(pairs, rnd), stratified(triples, rnd), stratified(extra, rnd)
     if tier == 'quick':
-        stages = [('all histories of 2 calls', pairs, 150, True), ('seeded sample of longer histories', extra, 110, False)]
+        stages = [('all histories of 2 calls', pairs, 170, True), ('seeded sample of longer histories', extra, 110, False)]
     else:
         stages = [('all histories of 2 calls', pairs, 1500, True), ('all kept histories of 3 calls', triples, 1380, True),
                   ('seeded sample of longer histories', extra, 1440, False)]
@@ -244,6 +261,9 @@ def explain_hist(hist, hseed, k, clause, xmldir, cwd):
     rh, rf = run_jobs(jobs, cwd)
     c, f = rh['calls'][k - 1], rf['calls'][0]
     rep = {'kind': 'hist', 'hist': [list(x) for x in hist], 'hashseed': hseed, 'call': k, 'clause': clause}
+    if len(rh['calls']) < k:
+        rep.update({'reproduced': True, 'note': 'on re-execution: ' + rh.get('aborted', '?')})
+        return rep, NOTERM, ['on re-execution an earlier call did not terminate: ' + rh.get('aborted', '?')]
     if clause == 'globals':
         prev = rh['g0'] if k == 1 else rh['calls'][k - 2]['g']
         rep.update({'reproduced': c['g'] != prev, 'changed_cells': c['gdiff']})
@@ -273,8 +293,9 @@ def explain_fresh(doc, kind, seed_ref, seed_other, clause, xmldir, cwd):
     return rep, diff_class(exp, obs), ex
 
 
-def report_rejects(chk, rejects, base_meta, hist_meta, seeds, xmldir, cwd):
-    """base_meta[i] = (doc, kind, seed index); hist_meta[i] = (history, seed index, result)"""
+def report_rejects(chk, rejects, base_meta, hist_meta, seeds, xmldir, cwd, base_why):
+    """base_meta[i] = (doc, kind, seed index); hist_meta[i] = (history, seed index, result); base_why[i] = why the i-th
+    fresh process did not finish its call"""
     # one-call fresh processes that disagree with the reference process / change globals
     seen = set()
     for typ, i, k, clause in rejects:
@@ -284,6 +305,12 @@ def report_rejects(chk, rejects, base_meta, hist_meta, seeds, xmldir, cwd):
         if (doc, kind, clause) in seen:
             continue
         seen.add((doc, kind, clause))
+        if clause == NOTERM:
+            why = base_why.get(i, '?')
+            chk.violation({'clause': NOTERM, 'kind': kind, 'where': 'fresh_process'},
+                          'a single %s call on %s in a fresh process (PYTHONHASHSEED %s) does not come back: %s' % (kind, doc, seeds[sidx], why),
+                          {'kind': 'hist', 'hist': [[doc, kind, 'none']], 'hashseed': seeds[sidx], 'call': 1, 'clause': NOTERM, 'why': why})
+            continue
         rep, dcls, ex = explain_fresh(doc, kind, seeds[0], seeds[sidx], clause, xmldir, cwd)
         if clause == 'globals':
             sig = {'clause': 'globals', 'kind': kind, 'diff': dcls}
@@ -313,6 +340,15 @@ def report_rejects(chk, rejects, base_meta, hist_meta, seeds, xmldir, cwd):
         clause, kind, cell = key
         cand, hist, sidx, k, reuse = groups[key]
         count = counts[key]
+        if clause == NOTERM:       # not re-executed for an explanation: the recorded reason is the explanation
+            i = cand[2]
+            why = hist_meta[i][2]['calls'][k - 1].get('why', '?')
+            chk.violation({'clause': NOTERM, 'kind': kind, 'where': 'history'},
+                          'history %s: the marked call does not come back (%s); the one-call fresh process does (%d such calls)'
+                          % (hist_text(hist, k), why, count),
+                          {'kind': 'hist', 'hist': [list(x) for x in hist], 'hashseed': seeds[sidx], 'call': k, 'clause': NOTERM,
+                           'why': why, 'occurrences': count})
+            continue
         if budget > 0:
             budget -= 1
             rep, dcls, ex = explain_hist(hist, seeds[sidx], k, clause, xmldir, cwd)
@@ -396,8 +432,10 @@ def run(tier, replay=None):
         return replay_file(replay)
     chk = Check('C18', tier)
     chk.rule = ('one case per history of library calls (document x kind in {validate with all sinks, context iteration, xml->x12 '
-                'conversion} x reuse in {none, params, maps}) executed in one fresh interpreter; every call of it is compared with '
-                'the one-call fresh process; a history of one call is the trivial case (it is the baseline itself)')
+                'conversion} x reuse in {none, params, maps}, and for an 837 and an 835 the kinds {iteration by loop id with the '
+                'iterate_loop_segments() event streams, the same with copy() of every yielded node}) executed in one fresh interpreter; '
+                'every call of it is compared with the one-call fresh process; a history of one call is the trivial case (it is the '
+                'baseline itself)')
     seeds = hash_seeds(tier)
     stages, full = enumerate_histories(chk, tier)
     if os.environ.get('C18_LIMIT'):     # development aid only: run a subset of the histories
@@ -412,16 +450,19 @@ def run(tier, replay=None):
         first = make_xml_inputs(DOCS, xmldir, cwd)
         # Fresh(doc, kind): one-call interpreters under every hash seed
         base_meta, jobs = [], []
+        singles = sorted(set((d, k) for h in full for d, k, r in h))       # the (document, kind) pairs of the specification
         for sidx, s in enumerate(seeds):
             for d in DOCS:
-                for k in KINDS:
+                for k in [k for k in KINDS if (d, k) in singles]:
                     base_meta.append((d, k, sidx))
                     jobs.append(({'calls': calls_of([(d, k, 'none')]), 'xmldir': xmldir}, s))
         bres = run_jobs(jobs, cwd)
         progress('%d fresh processes done' % len(bres))
-        base = []
-        for (d, k, sidx), r in zip(base_meta, bres):
+        base, base_why = [], {}
+        for n, ((d, k, sidx), r) in enumerate(zip(base_meta, bres)):
             c = r['calls'][0]
+            if c.get('why'):
+                base_why[n] = c['why']
             base.append({'doc': d, 'kind': k, 'seed': sidx, 'ref': sidx == 0, 'g0': r['g0'], 'g': c['g'], 'obs': obs_of(c)})
         # the histories, hash seeds in rotation, stage by stage; a stage stops starting processes at its deadline
         hists, hseeds, hres, stage_info, complete = [], [], [], [], True
@@ -450,17 +491,23 @@ def run(tier, replay=None):
             trace_h.append({'seed': sidx, 'g0': r['g0'],
                             'calls': [{'doc': c['doc'], 'kind': c['kind'], 'reuse': c['reuse'], 'g': c['g'], 'obs': obs_of(c)} for c in r['calls']]})
             chk.note_distinct('|'.join(','.join(c) for c in h))
-        ncalls = sum(len(h) for h in hists)
+        ncalls = sum(len(r['calls']) for r in hres)
+        chk.extra['processes_stopped_at_a_call_that_did_not_come_back'] = sum(1 for r in hres if r.get('aborted'))
         chk.add_traces(len(first) + len(bres) + len(hres))
         chk.add_eval(len(bres) + ncalls)
         rejects = validate(chk, base, trace_h, 'T_Session')
         progress('trace validation done: %d rejected clauses' % len(rejects))
-        report_rejects(chk, rejects, base_meta, hist_meta, seeds, xmldir, cwd)
+        report_rejects(chk, rejects, base_meta, hist_meta, seeds, xmldir, cwd, base_why)
         selftest(chk, base, trace_h)
         for n in (0, len(hists) // 2, len(hists) - 1):
             h, sidx, r = hist_meta[n]
             chk.sample({'history': hist_text(h), 'hashseed': seeds[sidx],
                         'observed': [{'verdict': c['verdict'][:60], 'nerr': c['nerr'], 'len': c['len'], 'ack': c['ack'], 'globals': c['g']} for c in r['calls']]})
+        n = next((n for n, h in enumerate(hists) if [c[1] for c in h[:2]] == ['loopcopy', 'loops']), None)
+        if n is not None:
+            h, sidx, r = hist_meta[n]
+            chk.sample({'history': hist_text(h), 'hashseed': seeds[sidx],
+                        'observed': [{'verdict': c['verdict'][:80], 'len': c['len'], 'out': c['out'], 'globals': c['g']} for c in r['calls']]})
         chk.extra['corpus'] = c18_corpus.ABOUT
         chk.extra['hash_seeds'] = seeds
         chk.extra['fresh_processes'] = len(bres)
@@ -474,7 +521,7 @@ def run(tier, replay=None):
     finally:
         shutil.rmtree(cwd, ignore_errors=True)
     chk.exhaustive = complete
-    chk.extra['exhaustive_space'] = ('all histories of length <= 2 over 8 documents x 3 kinds x 3 reuse modes'
+    chk.extra['exhaustive_space'] = ('all histories of length <= 2 over 8 documents x 3 kinds x 3 reuse modes + 2 documents x 2 loop kinds'
                                      + ('' if tier == 'quick' else '; all kept histories of length 3 (<= 2 distinct documents, uniform reuse mode)')
                                      + '; longer histories are a seeded sample'
                                      + ('' if complete else ' -- NOT completed within the time budget on this run, see histories.stages'))
@@ -483,7 +530,10 @@ def run(tier, replay=None):
                        'reuse=maps is realised by handing the library the session\'s already loaded map objects through pyx12.map_if.load_map_file '
                        '(the library has no parameter for it); the error tree is read through a recording subclass of err_handler',
                        'a change of a watched global cell is reported even when no output differs within the bounded histories',
-                       'ST02/SE02 of the acknowledgement are treated as generated control numbers (masked) like ISA13 and GS06']
+                       'ST02/SE02 of the acknowledgement are treated as generated control numbers (masked) like ISA13 and GS06',
+                       'a call (with the reading of the watched globals after it) that uses more than %s s of CPU time or exhausts the '
+                       'address space of its interpreter is reported as no_termination; ordinary calls use < 3 s'
+                       % os.environ.get('C18_CALL_CPU', '45')]
     return chk.finish()
 
 
